@@ -144,3 +144,91 @@ R.contract(
     modifies=list(STEP_MOD),
     props=["C15"],
 )
+
+# ---- helpers used by the steps ---------------------------------------------------------------------------
+EAPI = "geneticengine/evaluation/api.py"
+HLP = "geneticengine/problems/helpers.py"
+IND = "geneticengine/solutions/individual.py"
+R.contract(
+    "Evaluator.evaluate",
+    file=EAPI,
+    params=dict(self="Evaluator", problem="Problem", individuals="list[Individual]"),
+    returns="None",
+    requires={
+        "distinct_stores": "forall(0, len(individuals), lambda a: forall(0, len(individuals), lambda b: "
+        "implies(not same(individuals[a], individuals[b]), not same(individuals[a].fitness_store, individuals[b].fitness_store))))",
+    },
+    ensures={
+        "all_evaluated": "forall(0, len(individuals), lambda k: problem in individuals[k].fitness_store)",
+        "existing_fitness_kept": "dicts_monotone(individuals[0].fitness_store) or len(individuals) == 0",
+        "list_unchanged": "len(individuals) == oldlen(individuals) and forall(0, len(individuals), lambda k: same(individuals[k], oldel(individuals, k)))",
+        "counter_bounds": "self.count >= old(self.count) and self.count <= old(self.count) + len(individuals)",
+    },
+    loops={0: Loop(invariants={"t": "True"}, modifies=[])},
+    modifies=["self.count", "problem.ff.fn.ncalls", "all:dict", "all:field:phenotype"],
+    props=["C13", "C15", "C16", "C17"],
+)
+R.contract(
+    "Individual.ensure_fitness",
+    file=IND,
+    params=dict(self="Individual", problem="Problem"),
+    returns="None",
+    requires={"already_evaluated": "problem in self.fitness_store"},
+    ensures={},
+    modifies=[],
+    allocates=False,
+    props=["C17"],
+    note="as used by the selection key function after the population has been evaluated: a no-op",
+)
+R.contract("Individual.key_function", file=IND, inline=True, params=dict(problem="Problem"), returns="any", verify=False)
+R.contract(
+    "sort_population",
+    file=HLP,
+    params=dict(population="list[Individual]", problem="Problem"),
+    returns="list[Individual]",
+    requires={"all_evaluated": "forall(0, len(population), lambda k: problem in population[k].fitness_store)"},
+    ensures={
+        "fresh": "fresh(result)",
+        "same_size": "len(result) == len(population)",
+        "members": "forall(0, len(result), lambda j: exists(0, len(population), lambda e: same(result[j], population[e])))",
+        "best_first": "forall(0, len(result), lambda i: forall(i + 1, len(result), lambda j: "
+        "result[i].fitness_store[problem].maximizing_aggregate >= result[j].fitness_store[problem].maximizing_aggregate))",
+        "first_is_max": "forall(0, len(population), lambda e: len(result) >= 1 and "
+        "result[0].fitness_store[problem].maximizing_aggregate >= population[e].fitness_store[problem].maximizing_aggregate)",
+        "evaluated": "forall(0, len(result), lambda k: problem in result[k].fitness_store)",
+    },
+    proves={
+        "is_permutation": "len(SORTPERM0) == len(population) and forall(0, len(population), lambda i: "
+        "0 <= SORTPERM0[i] and SORTPERM0[i] < len(population) and same(result[i], population[SORTPERM0[i]]) and SORTINV0[SORTPERM0[i]] == i)",
+    },
+    fresh_result=True,
+    props=["C16"],
+)
+
+ELI = "geneticengine/algorithms/gp/operators/elitism.py"
+R.cls("ElitismStep", bases=["GeneticStep"], fields={}, file=ELI)
+DISTINCT = {
+    "distinct_stores": "forall(0, avail(population), lambda a: forall(0, avail(population), lambda b: "
+    "implies(not same(item(population, a), item(population, b)), not same(item(population, a).fitness_store, item(population, b).fitness_store))))",
+}
+R.contract(
+    "ElitismStep.iterate",
+    file=ELI,
+    overrides="GeneticStep.iterate",
+    params=dict(self="ElitismStep", **STEP_PARAMS),
+    returns="iter[Individual]",
+    requires={**STEP_REQ, **DISTINCT},
+    ensures={
+        "members": "forall(0, len(result), lambda j: exists(0, old(avail(population)), lambda e: same(result[j], old(item(population, e)))))",
+        "evaluated": "forall(0, len(result), lambda j: problem in result[j].fitness_store)",
+        "best_is_kept": "implies(target_size >= 1, forall(0, old(avail(population)), lambda e: "
+        "result[0].fitness_store[problem].maximizing_aggregate >= old(item(population, e)).fitness_store[problem].maximizing_aggregate))",
+    },
+    proves={
+        "top_k": "forall(0, len(candidates), lambda e: forall(0, target_size, lambda j: "
+        "exists(0, target_size, lambda m: same(new_population[m], candidates[e])) or "
+        "new_population[j].fitness_store[problem].maximizing_aggregate >= candidates[e].fitness_store[problem].maximizing_aggregate))",
+    },
+    modifies=["evaluator.count", "problem.ff.fn.ncalls", "all:dict", "all:field:phenotype"],
+    props=["C15", "C16"],
+)
